@@ -119,7 +119,9 @@ func (e *gep) set(up bool) {
 }
 
 // EPNames are the endpoints of the world.
-var EPNames = []string{"e0", "e1", "e2", "e3"}
+// The last two are single endpoints whose addresses contain a comma (a target may list several addresses): they must not
+// be confused with the two endpoints they are spelled like.
+var EPNames = []string{"e0", "e1", "e2", "e3", "e0,e1", "e2,e3"}
 
 // MENames are the MultiEndpoint names used by generated options.
 var MENames = []string{"d", "r", "w"}
